@@ -224,6 +224,19 @@ fn seen_often(fail: &Fail) -> bool {
     *n > WITNESSES_PER_WORKER
 }
 
+fn remove_own_domain() {
+    let pid = std::process::id();
+    let _ = std::fs::remove_dir_all(format!("/verif/.run/h_reqres-{pid}"));
+    let prefix = format!("hrr{pid}_");
+    if let Ok(rd) = std::fs::read_dir("/dev/shm") {
+        for e in rd.flatten() {
+            if e.file_name().to_string_lossy().starts_with(&prefix) {
+                let _ = std::fs::remove_file(e.path());
+            }
+        }
+    }
+}
+
 /// The inter-process flavour leaves a root directory and the domain-wide management segment
 /// (persistent by design) per worker process; whoever runs next removes those of dead processes.
 fn remove_leftovers_of_dead_processes() {
@@ -1348,9 +1361,15 @@ impl<S: Service> World<S> {
                 drop(server);
             }
         }
+        let ipc = self.cfg.ipc;
         let World { service, node, .. } = self;
         drop(service);
         drop(node);
+        if ipc {
+            // nothing of this process' private domain is in use any more: also remove what
+            // persists by design (directories, the domain-wide management segment)
+            remove_own_domain();
+        }
         match r {
             Err(fail) if seen_often(&fail) => Ok(()),
             r => r,
@@ -1498,23 +1517,27 @@ fn configs(tier: Tier) -> Vec<(Cfg, Plan)> {
     let quick = tier == Tier::Quick;
     let p = prop();
     // the additional probe / saturation operations of C02 and C08 widen the tree
-    let less = match p {
-        Prop::C11 => 0,
-        Prop::C02 => 1,
-        Prop::C08 => 2,
+    let less = match (p, quick) {
+        (Prop::C11, _) => 0,
+        (Prop::C02, true) => 1,
+        (Prop::C02, false) => 2,
+        (Prop::C08, true) => 2,
+        (Prop::C08, false) => 3,
     };
     let mut v: Vec<(Cfg, Plan)> = Vec::new();
     let mut add = |c: Cfg, quick_depth: usize, thorough_depth: usize| {
         let d = depth_override(if quick { quick_depth } else { thorough_depth } - less);
-        let frontier = if quick { Some((400, 10)) } else { Some((3000, 12)) };
-        v.push((c, Plan { tree_depth: d, finish_prefixes: false, frontier, split: if quick { 1 } else { 2 } }));
+        let frontier = if quick { Some((300, 10)) } else { Some((2000, 12)) };
+        // the widest quick trees are split over two workers to keep every worker short
+        let split = if !quick || quick_depth >= 6 { 2 } else { 1 };
+        v.push((c, Plan { tree_depth: d, finish_prefixes: false, frontier, split }));
     };
 
     // S11: one client, one server, both created up front, no port operations
     for a in 1..=3usize {
-        for r in OA8 {
+        for (i, r) in OA8.into_iter().enumerate() {
             let (qd, td) = match a {
-                1 => (7, 9),
+                1 => (if i % 2 == 0 { 7 } else { 6 }, 9),
                 2 => (6, 8),
                 _ => (5, 7),
             };
@@ -1581,7 +1604,7 @@ fn configs(tier: Tier) -> Vec<(Cfg, Plan)> {
             c.max_clients = 2;
             c.init_clients = 2;
         }
-        add(c, 5, 7);
+        add(c, 5, 6);
     }
     // loan and send as separate steps
     for (i, r) in [OA8[1], OA8[2], OA8[4], OA8[7]].into_iter().enumerate() {
@@ -1595,7 +1618,7 @@ fn configs(tier: Tier) -> Vec<(Cfg, Plan)> {
             c.dynamic_clients = true;
             c.dynamic_servers = true;
         }
-        add(c, 5, 7);
+        add(c, 5, 6);
     }
     if !quick {
         // the same shapes over the inter-process service flavour (every fourth configuration)
